@@ -10,7 +10,7 @@ against a fake JVM peer (surface S7).
 from .. import model, observe, spec as specmod
 from ..kernel import HarnessError, call
 from .c01 import tol_for
-from .pool import PoolScenario, check_writeset, hashes, snapshot_docs
+from .pool import PoolScenario, branch_shortcuts, check_writeset, hashes, snapshot_docs
 
 
 class C07(PoolScenario):
@@ -209,6 +209,10 @@ class C07(PoolScenario):
                 w.meta[st["ap"]]["via"] = "add"
                 writes = {st["a"], st["ap"]}
                 iadds += 1
+                bad = branch_shortcuts(w.heap[st["a"]]) if w.has(st["a"]) else None
+                if bad is not None:
+                    raise self.violation("Branch", "iadd", "stale-shortcut:i%d" % bad[1],
+                                         "after a += b the Branch's attribute i%d is not its member %d" % (bad[1], bad[1]), si)
                 ea = observe.observe(a)
                 eb = before[st["b"]]
                 from .. import grammar
